@@ -83,6 +83,13 @@ def _js_type(t, refprefix):
         return {"type": "object", "additionalProperties": _js_type(t[1], refprefix)}
     if k == "const":
         return {"type": "string", "const": t[1]}
+    if k == "struct":      # anonymous struct
+        return {"type": "object", "properties": {f: _js_type(ft, refprefix) for (f, ft, _r, _d) in t[1]},
+                **({"required": [f for (f, _t, r, _d) in t[1] if r]} if any(r for (_f, _t, r, _d) in t[1]) else {})}
+    if k == "enum":        # anonymous enum
+        return {"type": "string", "enum": list(t[1])}
+    if k == "union":       # union of scalars
+        return {"oneOf": [_js_type(x, refprefix) for x in t[1]]}
     raise ValueError(t)
 
 
@@ -142,6 +149,13 @@ def _cue_type(t):
         return "[string]: %s" % _cue_type(t[1])
     if k == "const":
         return json.dumps(t[1])
+    if k == "struct":
+        return "{ " + ", ".join("%s%s: %s" % (f, "" if r else "?", ("{%s}" % _cue_type(ft)) if isinstance(ft, tuple) and ft[0] == "map" else _cue_type(ft))
+                                 for (f, ft, r, _d) in t[1]) + " }"
+    if k == "enum":
+        return " | ".join(json.dumps(v) for v in t[1])
+    if k == "union":
+        return " | ".join(_cue_type(x) for x in t[1])
     raise ValueError(t)
 
 
@@ -715,3 +729,69 @@ def culibs_entry(base, name="cuelibs"):
 
 
 GROWTH_ENTRIES = {"constants": constants_entry, "veneers": veneers_entry, "passes": passes_entry, "cuelibs": culibs_entry}
+
+
+def veneer_params_entry(base, name="veneerparams"):
+    """Every builder / option rule that takes a map- or list-valued parameter, with >= 2 entries that OVERLAP (a rename map whose
+    values are also keys, lists whose items differ only in letter case or name the same thing twice)."""
+    d = os.path.join(base, name)
+    os.makedirs(d)
+    doc = {"$schema": "http://json-schema.org/draft-07/schema#", "$ref": "#/definitions/Root", "definitions": {
+        "Root": {"type": "object", "required": ["name"], "properties": {
+            "name": {"type": "string"}, "enabled": {"type": "boolean"}, "tags": {"type": "array", "items": {"type": "string"}},
+            "labels": {"type": "object", "additionalProperties": {"type": "string"}},
+            "limits": {"$ref": "#/definitions/Limits"}, "point": {"$ref": "#/definitions/Point"}, "extent": {"$ref": "#/definitions/Extent"}}},
+        "Limits": {"type": "object", "properties": {"min": {"type": "integer"}, "max": {"type": "integer"}, "step": {"type": "integer"}, "Step": {"type": "integer"}}},
+        "Extent": {"type": "object", "properties": {"a": {"type": "integer"}, "b": {"type": "integer"}, "c": {"type": "integer"}}},
+        "Point": {"type": "object", "properties": {"x": {"type": "integer"}, "y": {"type": "integer"}, "z": {"type": "integer"}}}}}
+    _write(os.path.join(d, "alpha.schema.json"), json.dumps(doc, indent=1))
+    string_t = {"kind": "scalar", "scalar": {"scalar_kind": "string"}}
+    _write(os.path.join(d, "veneers", "all.yaml"), yaml_dump({"language": "all", "package": "alpha", "builders": [
+        # rename map: a swap; exclude list: two spellings of one name
+        {"merge_into": {"destination": "Root", "source": "Limits", "under_path": "limits",
+                        "exclude_options": ["step", "Step"], "rename_options": {"min": "max", "max": "min"}}},
+        # rename map: a chain
+        {"merge_into": {"destination": "Root", "source": "Extent", "under_path": "extent", "rename_options": {"a": "b", "b": "c", "c": "d"}}},
+        {"duplicate": {"by_object": "Point", "as": "PointCopy", "exclude_options": ["x", "X", "x"]}},
+        {"promote_options_to_constructor": {"by_object": "Point", "options": ["y", "x", "y"]}},
+        {"properties": {"by_object": "Root", "set": [{"name": "scratch", "type": string_t}, {"name": "Scratch", "type": string_t}]}},
+        {"initialize": {"by_object": "Root", "set": [{"property": "name", "value": "first"}, {"property": "name", "value": "second"}]}},
+    ], "options": [
+        {"rename_arguments": {"by_name": "Root.name", "as": ["title"]}},
+        {"unfold_boolean": {"by_name": "Root.enabled", "true_as": "enable", "false_as": "disable"}},
+        {"array_to_append": {"by_name": "Root.tags"}},
+        {"map_to_index": {"by_name": "Root.labels"}},
+        {"struct_fields_as_arguments": {"by_name": "Root.point", "fields": ["x", "y", "x"]}},
+        {"add_comments": {"by_names": {"object": "Root", "options": ["name", "tags", "name"]}, "comments": ["one", "two"]}},
+    ]}))
+    inputs = [{"jsonschema": {"path": "%__config_dir%/alpha.schema.json", "package": "alpha"}}]
+    y = write_pipeline(d, "pipeline", inputs, LANGS, types=True, builders=True, converters=True, api_reference=True,
+                       veneers=["%__config_dir%/veneers"])
+    return {"id": name, "yaml": y, "inspect": True, "outdir": "out", "langs": list(LANGS), "pkgs": ["alpha"],
+            "features": {}, "flags": {}, "source": "veneerparams"}
+
+
+GROWTH_ENTRIES["veneerparams"] = veneer_params_entry
+
+
+def write_constref_cue(d, cuepkg, pkg):
+    """A CUE package with a named enum and CONSTANT REFERENCES to its members (`kind: Kind & "circle"`)."""
+    _write(os.path.join(d, cuepkg, "s.cue"),
+           'package %s\n\nKind: "circle" | "square" @cog(kind="enum")\n\nCircle: {\n  kind: Kind & "circle"\n  radius: number\n}\n\n'
+           'Square: {\n  kind: Kind & "square"\n  side: number\n}\n\nDrawing: {\n  title: string\n  first?: Circle\n  second?: Square\n}\n' % cuepkg)
+    return {"cue": {"entrypoint": "%__config_dir%/" + cuepkg, "package": pkg}}
+
+
+def constref_entry(base, name="constref"):
+    """Constant references + name-changing transformations: as an explicit chain (rename_object on the enum) and, for the
+    callers that support it, as a final pass of every language chain (final_prefix)."""
+    d = os.path.join(base, name)
+    os.makedirs(d)
+    inputs = [write_constref_cue(d, "cue_shapes", "alpha")]
+    _write(os.path.join(d, "chain_rename_enum.yaml"), yaml_dump({"passes": [{"rename_object": {"from": "alpha.Kind", "to": "Sort"}}]}))
+    y = write_pipeline(d, "pipeline", inputs, LANGS, types=True, builders=True, converters=False, api_reference=False)
+    return {"id": name, "yaml": y, "inspect": True, "outdir": "out", "langs": list(LANGS), "pkgs": ["alpha"], "features": {}, "flags": {},
+            "source": "constref", "chains": [os.path.join(d, "chain_rename_enum.yaml")], "final_prefix": "Geo"}
+
+
+GROWTH_ENTRIES["constref"] = constref_entry
